@@ -10,8 +10,9 @@ the well-formedness predicate of trees.  Core Lean only.
   of its *finite* entries; `ub0` is `upper_bound[0]` (`none` = DBL_MAX, i.e. fewer than `internal_k` finite
   entries).  Sums with DBL_MAX stay "infinite" (`addInf`).
 * `cover_sets` is a function from scale to the list of `(distance, node)` pairs in insertion order.
-* `halfsort` only reorders a cover set; it is the identity here (the order of traversal is a scheduling
-  detail: the theorems hold for any order; the driver compares candidate *sets*).
+* `halfsort` only reorders a cover set: it is a parameter `hsort` of the model, the theorems hold for every
+  `hsort` that returns a permutation of its argument (the real `halfsort` only swaps entries); the driver runs
+  the identity and compares candidate *sets*.
 * batch construction (`batch_create`) is not modelled: the driver runs this model on the tree the real
   code built (dumped by the harness) after checking `wfTree` on it.
 -/
@@ -187,7 +188,7 @@ def bruteNearest (δ : Nat → Nat → K) (K0 : Nat) : Nat → CNode K → List 
             | none => none
             | some r => some (rs ++ r)) (some r0)
 
-def internalBatch (δ : Nat → Nat → K) (K0 leafScale : Nat) :
+def internalBatch (δ : Nat → Nat → K) (hsort : List (DN K) → List (DN K)) (K0 leafScale : Nat) :
     Nat → CNode K → Cover K → List (DN K) → Nat → Nat → List K → Option (List (List Nat))
   | 0, _, _, _, _, _, _ => none
   | fuel + 1, Q, cover, zero, cur, maxScale, ub =>
@@ -203,23 +204,24 @@ def internalBatch (δ : Nat → Nat → K) (K0 leafScale : Nat) :
             let nu := fill K0 (addInf (ub0 K0 ub) C.parentDist)
             let (ub1, nz) := copyZero δ K0 C nu zero
             let (ub2, nc) := copyCover δ K0 C cover (maxScale + 1 - cur) cur (ub1, Cover.empty)
-            match internalBatch δ K0 leafScale fuel C nc nz cur maxScale ub2 with
+            match internalBatch δ hsort K0 leafScale fuel C nc nz cur maxScale ub2 with
             | none => none
             | some r => some (rs ++ r)) (some [])
         match rs with
         | none => none
         | some rs =>
-          match internalBatch δ K0 leafScale fuel c0 cover zero cur maxScale ub with
+          match internalBatch δ hsort K0 leafScale fuel c0 cover zero cur maxScale ub with
           | none => none
           | some r0 => some (rs ++ r0)
     else
-      let st := (cover cur).foldl (descendParent δ K0 Q) ⟨ub, maxScale, cover, zero⟩
-      internalBatch δ K0 leafScale fuel Q (st.cover.clear cur) st.zero (cur + 1) st.maxScale st.ub
+      let st := (hsort (cover cur)).foldl (descendParent δ K0 Q) ⟨ub, maxScale, cover, zero⟩
+      internalBatch δ hsort K0 leafScale fuel Q (st.cover.clear cur) st.zero (cur + 1) st.maxScale st.ub
 
-/-- `k_nearest_neighbor(dcb, top, top, results, K0)`: one result `query :: candidates` per leaf of the query tree -/
-def batchQuery (δ : Nat → Nat → K) (K0 leafScale : Nat) (top : CNode K) : Option (List (List Nat)) :=
+/-- `k_nearest_neighbor(dcb, top, top, results, K0)` (`hsort` = `halfsort`): one result `query :: candidates` per leaf of the query tree -/
+def batchQuery (δ : Nat → Nat → K) (hsort : List (DN K) → List (DN K)) (K0 leafScale : Nat) (top : CNode K) :
+    Option (List (List Nat)) :=
   let d0 := δ top.p top.p
-  internalBatch δ K0 leafScale (top.size * (leafScale + 3) + 2) top (Cover.empty.push 0 ⟨d0, top⟩) [] 0 0
+  internalBatch δ hsort K0 leafScale (top.size * (leafScale + 3) + 2) top (Cover.empty.push 0 ⟨d0, top⟩) [] 0 0
     (update K0 [] d0)
 
 end
